@@ -70,7 +70,7 @@ func c01SvcbDupSentinel(c *Ctx, r *Report, rule string) {
 // c01SubnetMasked: RFC 7871 s.6: the ADDRESS of a client-subnet option is truncated to SOURCE PREFIX-LENGTH bits, the
 // rest being zero. In both address families the octets copied into the option come from a (net.IP).Mask call.
 func c01SubnetMasked(c *Ctx, r *Report, rule string) {
-	r.rule(rule, 2, "EDNS0_SUBNET.pack copies the address through (net.IP).Mask(prefix) in both families")
+	r.rule(rule, 1, "EDNS0_SUBNET.pack copies the address through (net.IP).Mask(prefix) in both families")
 	fn := c.ssaFunc("EDNS0_SUBNET.pack")
 	if fn == nil {
 		r.cerr(rule, "EDNS0_SUBNET.pack", "function not found")
@@ -94,8 +94,9 @@ func c01SubnetMasked(c *Ctx, r *Report, rule string) {
 		})
 		r.check(masked, rule, fmt.Sprintf("EDNS0_SUBNET.pack:copy#%d", n), c.pos(ci.Pos()), "through Mask", "the address octets are copied without (net.IP).Mask: for a prefix length that is not a multiple of 8 the bits beyond SOURCE PREFIX-LENGTH go onto the wire (RFC 7871 s.6 requires them to be zero, and servers answer FORMERR)")
 	}
-	if n < 2 {
-		r.fail(rule, "EDNS0_SUBNET.pack", c.pos(fn.Pos()), "only %d copies into b[4:] found, one per address family expected", n)
+	// one copy per address family, or one shared by both (the families then differ only in the width of the address)
+	if n < 1 {
+		r.fail(rule, "EDNS0_SUBNET.pack", c.pos(fn.Pos()), "no copy of the address into b[4:] found")
 	}
 }
 
